@@ -42,6 +42,11 @@ class P:
 
 
 @dataclass(eq=False)
+class Q(P):
+    """elements with b == 1 are instances of Q when the case writes some conditions in another form ("forms")"""
+
+
+@dataclass(eq=False)
 class View:
     p: P = None
 
@@ -62,7 +67,7 @@ def run_case(case) -> list:
     from krrood.entity_query_language.symbolic import SymbolicExpression
 
     SymbolicExpression._symbolic_expression_stack_.clear()
-    xs = [P(a, b) for a, b in case["world"]]
+    xs = [(Q if (case.get("forms") and b == 1) else P)(a, b) for a, b in case["world"]]
     keep = []
     index = {id(p): i for i, p in enumerate(xs)}
     try:
@@ -70,6 +75,18 @@ def run_case(case) -> list:
         views = inference(View)()
 
         def conds_of(rule):
+            # "form": the same condition written differently (the Coq terms keep the atom)
+            #   1: the single atom `x.b == 1` written as the predicate HasType(x, Q)
+            #   2: the single atom `x.<attr> != v` written as not_(x.<attr> == v)
+            if rule.get("form") == 1:
+                from krrood.entity_query_language.predicate import HasType
+                assert rule["conds"] == [[1, 0, 0, 1]]
+                return [HasType(x, Q)]
+            if rule.get("form") == 2:
+                from krrood.entity_query_language.entity import not_
+                (attr, op, rk, rv), = rule["conds"]
+                assert op == 1 and rk == 0
+                return [not_(getattr(x, ATTRS[attr]) == rv)]
             out = []
             for attr, op, rk, rv in rule["conds"]:
                 lhs = getattr(x, ATTRS[attr])
@@ -135,11 +152,13 @@ def snippet(case) -> str:
     """A self-contained runnable Python program reproducing the case against the public API."""
     lines = [
         "from dataclasses import dataclass",
-        "from krrood.entity_query_language.entity import let, entity, inference",
+        "from krrood.entity_query_language.entity import let, entity, inference, not_",
+        "from krrood.entity_query_language.predicate import HasType",
         "from krrood.entity_query_language.quantify_entity import an",
         "from krrood.entity_query_language.conclusion import Add",
         "from krrood.entity_query_language.rule import refinement, alternative, next_rule",
         "@dataclass(eq=False)\nclass P:\n    a: int\n    b: int = 0",
+        "@dataclass(eq=False)\nclass Q(P): ...",
         "@dataclass(eq=False)\nclass View:\n    p: P = None",
     ]
     tags = []
@@ -153,10 +172,15 @@ def snippet(case) -> str:
     collect(case["prog"])
     for t in sorted(set(tags)):
         lines.append(f"@dataclass(eq=False)\nclass V{t}(View): ...")
-    lines.append("xs = [" + ", ".join(f"P({a}, {b})" for a, b in case["world"]) + "]")
+    lines.append("xs = [" + ", ".join(f"{'Q' if (case.get('forms') and b == 1) else 'P'}({a}, {b})" for a, b in case["world"]) + "]")
     lines.append("x = let(P, xs, name='x'); views = inference(View)()")
 
     def conds(r):
+        if r.get("form") == 1:
+            return "HasType(x, Q)"
+        if r.get("form") == 2:
+            (a, _o, _rk, rv), = r["conds"]
+            return f"not_(x.{ATTRS[a]} == {rv})"
         return ", ".join(f"x.{ATTRS[a]} {OPNAMES[o]} " + (str(rv) if rk == 0 else f"x.{ATTRS[rv]}") for a, o, rk, rv in r["conds"])
 
     lines.append(f"q = an(entity(views, {conds(case['prog'])}))")
@@ -528,6 +552,53 @@ def gen_case(rng, good, max_branches):
     return case
 
 
+def add_forms(rng, case):
+    """write some single-atom conditions in another form: HasType(x, Q) for `x.b == 1`, not_(x.a == v) for `x.a != v`"""
+    rules = []
+
+    def walk(r):
+        rules.append(r)
+        for _, sub in r["body"]:
+            walk(sub)
+
+    walk(case["prog"])
+    case["forms"] = True
+    case["world"] = [[a, b % 2] for a, b in case["world"]]
+    for r in rng.sample(rules, min(len(rules), rng.randint(1, 3))):
+        if rng.chance(0.6):
+            r["conds"], r["form"] = [[1, 0, 0, 1]], 1
+        else:
+            r["conds"], r["form"] = [[rng.choice([0, 1]), 1, 0, rng.randint(0, 1)]], 2
+    return case
+
+
+def strip_forms(case):
+    """the same program with every condition written as a comparator"""
+    d = json.loads(json.dumps(case))
+    d.pop("forms", None)
+
+    def walk(r):
+        r.pop("form", None)
+        for _, sub in r["body"]:
+            walk(sub)
+
+    walk(d["prog"])
+    return d
+
+
+def has_form(case, form) -> bool:
+    found = []
+
+    def walk(r):
+        if r.get("form") == form:
+            found.append(1)
+        for _, sub in r["body"]:
+            walk(sub)
+
+    walk(case["prog"])
+    return bool(found)
+
+
 def all_forests(n):
     if n == 0:
         yield []
@@ -617,6 +688,7 @@ def evaluate(cases, model_ok):
 CLASS_TEXT = {
     "K_surgery": "the tree built by refinement()/alternative()/next_rule() is not the written one (C08-a/b/c/f, repaired by /repo 4511011: no open finding)",
     "K_next": "programs with next_rule outside the ordered fragments Fx: inside C08_rules_next_all (set of instances, next_rule anywhere); C08-d/e/g repaired by /repo 35fa150, 6dfdafd: no open finding; compared with model and Spec (as multisets)",
+    "K_leafflag": "a branch whose whole condition is a single predicate (HasType) never sets `_is_false_`; an Alternative chained to it reads the stale flag (C08-k); narrow match: the same program with that condition written as a comparator agrees with the Spec",
     "U_unsettled": "next_rule written in the level of a later sibling refinement: reading not settled by the property text; compared with the model only",
 }
 
@@ -838,7 +910,7 @@ def run(tier: str, seed: int, replay=None) -> int:
             cases.append(replay["case"])
             origin.append("replay")
     else:
-        stale_open = {f.witness for f in findings if f.kind == "open" and f.cls == "K_stale_parent"}
+        stale_open = {f.witness for f in findings if f.kind == "open" and f.cls in ("K_stale_parent", "K_leafflag")}
         for p in sorted(corpus_dir.glob("*.json")):
             if p.name.startswith("_") or f"corpus/{PROP}/{p.name}" in stale_open:
                 continue          # (the witness of the open finding C08-j is replayed with its own narrow match below)
@@ -868,6 +940,8 @@ def run(tier: str, seed: int, replay=None) -> int:
             c1 = gen_case(rng, good, 6)
             if c1.get("stages") and "K_stale_parent" not in open_classes and rng5.chance(0.5):
                 c1["mid_evals"] = 1      # the query is evaluated between the two with-blocks (C08-j, once repaired)
+            if rng5.chance(0.2):
+                add_forms(rng5, c1)      # predicates / not_ as whole branch conditions (C08-k)
             cases.append(c1)
             origin.append("random")
         if tier == "thorough":
@@ -896,6 +970,7 @@ def run(tier: str, seed: int, replay=None) -> int:
     stale_notes = 0
     bad = []
     model_bad = []
+    pending_forms = []
     for c, org, (impl, m, s, fr) in zip(cases, origin, results):
         key = json.dumps(c, sort_keys=True)
         nb = n_branches(c["prog"])
@@ -918,6 +993,11 @@ def run(tier: str, seed: int, replay=None) -> int:
 
         count_kinds(c["prog"])
         s_ok = spec_matches(impl, s)
+        dist["other_condition_forms"] = dist.get("other_condition_forms", 0) + (1 if c.get("forms") else 0)
+        if model_ok and not s_ok and c.get("forms") and "K_leafflag" in open_classes and has_form(c, 1) \
+                and case_class(fr) != "U_unsettled":
+            pending_forms.append((c, org, impl, m, s, fr))
+            continue
         if model_ok:
             cls = case_class(fr)
             dist["class"][cls] = dist["class"].get(cls, 0) + 1
@@ -950,6 +1030,15 @@ def run(tier: str, seed: int, replay=None) -> int:
         else:
             if not s_ok and py_simple_fragment(c["prog"]):
                 bad.append((c, org, impl, m, s, fr, "model unavailable; shape of the documented tests"))
+
+    # ---- open finding C08-k: the disagreement must disappear when the predicate is written as a comparator
+    if pending_forms:
+        plain_impl = run_impl_bulk([strip_forms(c) for c, *_ in pending_forms])
+        for (c, org, impl, m, s, fr), pi in zip(pending_forms, plain_impl):
+            if spec_matches(pi, s):
+                inst["K_leafflag"] = inst.get("K_leafflag", 0) + 1
+            else:
+                bad.append((c, org, impl, m, s, fr, "a condition written as a predicate: differs from the Spec also when written as a comparator"))
 
     # ---- two-variable programs: implementation vs Spec only
     try:
@@ -1043,6 +1132,16 @@ def run(tier: str, seed: int, replay=None) -> int:
             rep.oblige(f"finding:{f.fid}", False, f"cannot replay {f.witness}: {e}")
             continue
         fails = not spec_matches(impl, s)
+        if f.kind == "open" and f.cls == "K_leafflag":
+            (impl0,) = run_impl_bulk([strip_forms(d["case"])])
+            if fails and spec_matches(impl0, s) and impl == d.get("impl", impl):
+                rep.known(f)
+            elif fails:
+                rep.violation({"kind": "counterexample", "case": d["case"], "impl": impl, "spec": sorted(s),
+                               "why": f"witness of {f.fid} fails differently from what was recorded", "python": snippet(d["case"])})
+            else:
+                rep.note(f"known finding {f.fid} no longer reproduces on its witness")
+            continue
         if f.kind == "open" and f.cls == "K_stale_parent":
             # the construction model has no evaluation history: the narrow match is differential -- the same program
             # without the evaluation between the two with-blocks agrees with the Spec, and the output is the recorded one
